@@ -1,1 +1,146 @@
-fn main(){}
+//! simsched — deterministic simulation engine for graaf's threaded and
+//! history-dependent behaviour (see /verif/DESIGN.md).
+
+mod core;
+mod exec;
+mod lanes;
+mod ledger;
+mod ops;
+mod sched;
+mod shrink;
+
+use crate::core::{dump, minimise, read_words, replay, worker, Lane, Tier, WorkerArgs};
+
+#[global_allocator]
+static GLOBAL: ledger::Ledger = ledger::Ledger;
+
+fn arg(args: &[String], name: &str) -> Option<String> {
+    args.iter().position(|a| a == name).and_then(|i| args.get(i + 1).cloned())
+}
+
+macro_rules! dispatch {
+    ($prop:expr, $f:ident, $($a:expr),*) => {
+        match $prop {
+            "C17" => $f::<lanes::c17::C17>($($a),*),
+            other => {
+                eprintln!("unknown property {other}");
+                std::process::exit(2);
+            }
+        }
+    };
+}
+
+fn do_replay<L: Lane>(path: &str) -> i32 {
+    match replay::<L>(path) {
+        Err(e) => {
+            eprintln!("replay error: {e}");
+            2
+        }
+        Ok((rf, vs)) => {
+            let want = &rf.violation;
+            let mut same = false;
+            for v in &vs {
+                println!("REPLAYED class={} op={} signature=\"{}\" detail={}", v.class, v.op, v.signature, v.detail);
+                if v.class == want.class && v.op == want.op {
+                    same = true;
+                    if let (Some(a), Some(b)) = (&v.trace, &want.trace) {
+                        if v.conf_index == want.conf_index && a != b {
+                            println!("TRACE-MISMATCH recorded {} decisions, replayed {}", b.len(), a.len());
+                            return 2;
+                        }
+                    }
+                }
+            }
+            if same {
+                println!("REPRODUCED property={} signature=\"{}\"", rf.property, want.signature);
+                1
+            } else {
+                println!("NOT-REPRODUCED property={} signature=\"{}\"", rf.property, want.signature);
+                0
+            }
+        }
+    }
+}
+
+fn do_minimise<L: Lane>(path: &str, out: &str, budget: usize) -> i32 {
+    match minimise::<L>(path, out, budget) {
+        Ok(rf) => {
+            println!("MINIMISED {} -> {} ({})", path, out, rf.note);
+            0
+        }
+        Err(e) => {
+            eprintln!("minimise error: {e}");
+            2
+        }
+    }
+}
+
+fn property_of(path: &str) -> String {
+    let text = std::fs::read_to_string(path).unwrap_or_default();
+    let v: serde_json::Value = serde_json::from_str(&text).unwrap_or(serde_json::Value::Null);
+    v.get("property").and_then(|p| p.as_str()).unwrap_or("").to_string()
+}
+
+fn main() {
+    // no backtraces / messages from expected panics; shuttle chains its own hook after this one
+    std::panic::set_hook(Box::new(|_| {}));
+    std::env::remove_var("SHUTTLE_RANDOM_SEED");
+    let args: Vec<String> = std::env::args().collect();
+    let cmd = args.get(1).map(String::as_str).unwrap_or("");
+    let code = match cmd {
+        "worker" => {
+            let prop = arg(&args, "--prop").expect("--prop");
+            let a = WorkerArgs {
+                tier: Tier::parse(&arg(&args, "--tier").expect("--tier")).expect("tier"),
+                verif_seed: arg(&args, "--seed").expect("--seed").parse().expect("seed"),
+                shard: arg(&args, "--shard").expect("--shard").parse().expect("shard"),
+                shards: arg(&args, "--shards").expect("--shards").parse().expect("shards"),
+                runs: arg(&args, "--runs").expect("--runs").parse().expect("runs"),
+                out: arg(&args, "--out").expect("--out"),
+                replay_dir: arg(&args, "--replay-dir").expect("--replay-dir"),
+                only_run: arg(&args, "--only-run").map(|s| s.parse().expect("only-run")),
+                skip: arg(&args, "--skip")
+                    .map(|s| s.split(',').filter(|x| !x.is_empty()).map(|x| x.parse().expect("skip")).collect())
+                    .unwrap_or_default(),
+            };
+            dispatch!(prop.as_str(), worker, &a)
+        }
+        "dump" => {
+            let prop = arg(&args, "--prop").expect("--prop");
+            let tier = Tier::parse(&arg(&args, "--tier").expect("--tier")).expect("tier");
+            let seed: u64 = arg(&args, "--seed").expect("--seed").parse().expect("seed");
+            let run: u64 = arg(&args, "--run").expect("--run").parse().expect("run");
+            let out = arg(&args, "--out").expect("--out");
+            dispatch!(prop.as_str(), dump, tier, seed, run, &out)
+        }
+        "replay" => {
+            let path = args.get(2).expect("replay <file>");
+            let prop = property_of(path);
+            dispatch!(prop.as_str(), do_replay, path)
+        }
+        "minimise" => {
+            let path = args.get(2).expect("minimise <file> <out>");
+            let out = args.get(3).expect("minimise <file> <out>");
+            let budget = arg(&args, "--budget").map_or(2000, |s| s.parse().expect("budget"));
+            let prop = property_of(path);
+            dispatch!(prop.as_str(), do_minimise, path, out, budget)
+        }
+        "distinct" => {
+            // count distinct 64-bit digests over several files
+            let mut all: Vec<u64> = Vec::new();
+            for p in &args[2..] {
+                all.extend(read_words(p));
+            }
+            let total = all.len();
+            all.sort_unstable();
+            all.dedup();
+            println!("{} {}", all.len(), total);
+            0
+        }
+        _ => {
+            eprintln!("usage: simsched worker|replay|minimise|distinct ...");
+            2
+        }
+    };
+    std::process::exit(code);
+}
